@@ -1,7 +1,7 @@
 // ---------------------------------------------------------------------------
 // spec/cfgbuild.rs -- specification vocabulary of unit `cfgbuild` (property C08: the interprocedural control flow graph
-// represents exactly the program's control flow).  Nothing here is trusted: definitions only (cfg_find_block is an
-// uninterpreted function that only the @nobody contract of Program::find_block speaks about).
+// represents exactly the program's control flow).  Nothing here is trusted: definitions only (cfg_find_block is DEFINED:
+// the first block with the tid in (key order, list order); the extracted Program::find_block is verified against it).
 //
 // The builder is seen through an abstract state CfgSt (cfg_abs): the node weights in index order, the edges in index order
 // as (source, target, weight), and the views of the four bookkeeping collections.  Every builder step is specified as a
@@ -62,10 +62,52 @@ pub open spec fn cfg_has_block(subs: Map<Tid, Term<Sub>>, tid: Tid) -> bool {
     exists |k: Tid, i: int| #[trigger] cfg_block_at(subs, k, i, subs[k].term.blocks@[i]) && subs[k].term.blocks@[i].tid == tid
 }
 
-/// The value of `Program::find_block(tid)` (a deterministic function of the program and the tid).  Uninterpreted; the
-/// @nobody contract of find_block says: the call returns this value, it is `Some` iff a block with the tid exists, and
-/// then it is a block of the program with that tid.
-pub uninterp spec fn cfg_find_block<'a>(subs: Map<Tid, Term<Sub>>, tid: Tid) -> Option<&'a Term<Blk>>;
+/// key order of `BTreeMap<Tid, _>`: the derived `Ord` of `Tid` as vstd names it
+pub open spec fn cfg_tid_lt(a: Tid, b: Tid) -> bool {
+    vstd::std_specs::cmp::OrdSpec::cmp_spec(&a, &b) == core::cmp::Ordering::Less
+}
+
+/// block number `i` of the function stored under `k` has the tid `tid`
+pub open spec fn cfg_tid_at(subs: Map<Tid, Term<Sub>>, tid: Tid, k: Tid, i: int) -> bool {
+    subs.contains_key(k) && 0 <= i < subs[k].term.blocks@.len() && subs[k].term.blocks@[i].tid == tid
+}
+
+/// (`k`, `i`) is the FIRST position of a block with the tid `tid`, in (key order of the functions, list order of the blocks):
+/// every other position with that tid is later in the same function or in a function with a greater key
+pub open spec fn cfg_first_at(subs: Map<Tid, Term<Sub>>, tid: Tid, k: Tid, i: int) -> bool {
+    &&& cfg_tid_at(subs, tid, k, i)
+    &&& forall |k2: Tid, i2: int| #[trigger] cfg_tid_at(subs, tid, k2, i2) ==> (k2 == k && i <= i2) || cfg_tid_lt(k, k2)
+}
+
+/// iteration over `subs.iter()`: ascending keys
+pub open spec fn cfg_keys_sorted<V>(s: Seq<(&Tid, &V)>) -> bool {
+    forall |i: int, j: int| 0 <= i < j < s.len() ==> cfg_tid_lt(*(#[trigger] s[i]).0, *(#[trigger] s[j]).0)
+}
+
+/// loop form of find_block: no block of the first `n` functions of the iteration `s` has the tid
+pub open spec fn cfg_no_tid_before(s: Seq<(&Tid, &Term<Sub>)>, tid: Tid, n: int) -> bool {
+    forall |j: int, i: int| 0 <= j < n && 0 <= i < s[j].1.term.blocks@.len() ==> (#[trigger] s[j].1.term.blocks@[i]).tid != tid
+}
+
+/// The value of `Program::find_block(tid)`: the FIRST block with that tid in (key order of `subs`, list order of `blocks`),
+/// `None` iff no block has the tid.  A DEFINITION (nothing uninterpreted); the extracted body of find_block is verified to
+/// return exactly this value (contracts/cfgbuild.vc), lemma_cfg_find_block_ok (lemmas/cfgbuild.rs) proves cfg_find_block_ok.
+/// The middle branch (a block with the tid exists but no first position does) is impossible when the derived Ord of Tid is a
+/// lawful total order and the map is finite (a finite non-empty set of positions has a least one); it is there only to keep
+/// lemma_cfg_find_block_ok free of the hypothesis obeys_cmp::<Tid>(), as the axiom it replaces was.  Under obeys_cmp::<Tid>() the first position
+/// is unique (lemma_cfg_first_unique), so the `choose` is a definite value there.
+#[verifier::opaque]
+pub open spec fn cfg_find_block<'a>(subs: Map<Tid, Term<Sub>>, tid: Tid) -> Option<&'a Term<Blk>> {
+    if exists |k: Tid, i: int| #[trigger] cfg_first_at(subs, tid, k, i) {
+        let (k, i) = choose |k: Tid, i: int| #[trigger] cfg_first_at(subs, tid, k, i);
+        Some(&subs[k].term.blocks@[i])
+    } else if exists |k: Tid, i: int| #[trigger] cfg_tid_at(subs, tid, k, i) {
+        let (k, i) = choose |k: Tid, i: int| #[trigger] cfg_tid_at(subs, tid, k, i);
+        Some(&subs[k].term.blocks@[i])
+    } else {
+        None
+    }
+}
 
 pub open spec fn cfg_find_block_ok<'a>(subs: Map<Tid, Term<Sub>>, tid: Tid, r: Option<&'a Term<Blk>>) -> bool {
     &&& r is Some <==> cfg_has_block(subs, tid)
